@@ -21,6 +21,14 @@ fn healthy_history(run: &Run, case: u64) {
     let mut w = World::new("c09h", &mut rng, p, run.seed ^ case);
     let n_steps = 6 + rng.below(run.tier.pick(10, 16)) as usize;
     let mut descs = Vec::new();
+    // every third history has names of exactly 255 bytes, the longest the file system takes
+    if case % 3 == 1 {
+        let mut spec = w.spec.clone();
+        crate::tree::add_longest_names(&mut spec, &mut rng, "/");
+        w.set_spec(spec);
+        descs.push("names of 255 bytes added".to_string());
+        run.count("healthy_histories_with_255_byte_names", 1);
+    }
     run.eval();
     for step in 0..n_steps {
         let rep = w.random_step(&mut rng);
